@@ -28,7 +28,7 @@ Inductive emu := EAnsi | EAvatar | EPcb | ECtrlA | ERenegade | EAscii | EAtascii
      Renegade ea = state (0 Normal 1 ParseFirstColor 2 ParseSecondColor), eb = first
      ATASCII / Viewdata / Mode 7   ea = got_escape *)
 Record mach := mkM { am : amach; ea : Z; eb : Z; ec : Z; ed : Z }.
-Inductive mout := MOk (m : mach) | MErr (m : mach) | MPanic (site : Z) | MDiverge.
+Inductive mout := MOk (m : mach) | MErr (m : mach) | MPanic (site : Z).
 
 Definition mt (m : mach) : term := tm (am m).
 Definition with_t (m : mach) (t : term) : mach := mkM (mkA t (ps (am m))) (ea m) (eb m) (ec m) (ed m).
@@ -40,8 +40,8 @@ Definition fallback (m : mach) (ch : Z) : mout :=
   match ansi_step (am m) ch with
   | OOk a => MOk (mkM a (ea m) (eb m) (ec m) (ed m))
   | OErr a => MErr (mkM a (ea m) (eb m) (ec m) (ed m))
+  | ODeep a => MErr (mkM a (ea m) (eb m) (ec m) (ed m))     (* Err(MacroNestingTooDeep): for a wrapper an error value like every other *)
   | OPanic s => MPanic s
-  | ODiverge => MDiverge
   end.
 
 (* TextAttribute::from_u8(b, buf.ice_mode) projected to (fg, bg, blink) *)
@@ -257,13 +257,12 @@ Definition step (e : emu) (m : mach) (ch : Z) : mout :=
 Definition init (music : Z) (bs : bool) (w h : Z) : mach := mkM (ansi_init music bs w h) 0 0 0 0.
 
 (* a stream: after an error value the machine continues from the state the error left *)
-Inductive rout := RunOk (m : mach) | RunPanic (site : Z) | RunDiverge.
+Inductive rout := RunOk (m : mach) | RunPanic (site : Z).
 Fixpoint run (e : emu) (m : mach) (cs : list Z) : rout :=
   match cs with
   | [] => RunOk m
   | c :: r => match step e m c with
               | MOk m1 | MErr m1 => run e m1 r
               | MPanic s => RunPanic s
-              | MDiverge => RunDiverge
               end
   end.
